@@ -112,7 +112,7 @@ func checkC15(c *Ctx) {
 			if f := staticCallee(ins); f == dispRoots[2] {
 				g := false
 				for _, ft := range dominatingFacts(ins.Block()) {
-					if bo, ok := ft.Cond.(*ssa.BinOp); ok && bo.Op == token.EQL && ft.Val && isNilConst(bo.Y) {
+					if bo, ok := ft.Cond.(*ssa.BinOp); ok && ((bo.Op == token.EQL && ft.Val) || (bo.Op == token.NEQ && !ft.Val)) && isNilConst(bo.Y) {
 						if fv, _ := loadedField(bo.X); fv == readableF {
 							g = true
 						}
